@@ -39,7 +39,102 @@ def run(chk, repo):
     chk.attempt(column_delegation, chk, repo, "C12-Y7")
     chk.rule("C12-Y9", "declared dtype == loaded dtype for an empty selection: arrays created in Array.__getitem__ carry dtype=self.dtype, and a possibly empty list of rows is not converted without it", 1)
     chk.attempt(y9, chk, repo)
+    chk.rule("C12-Y10", "attributes attached while the tree is assembled (open_image, io.open, Group/Variable construction outside the record pipelines) are plain Python values, not NumPy objects", 2)
+    chk.attempt(y10, chk, repo)
     chk.count("functions", 6)
+
+
+NUMPY_VALUED = {"asarray", "array", "asanyarray", "arange", "zeros", "ones", "empty", "full", "fromiter", "frombuffer", "stack", "concatenate", "float32", "float64", "int16", "int32",
+                "int64", "uint8", "uint16", "uint32", "uint64", "complex64", "complex128", "datetime64", "timedelta64", "dtype", "atleast_1d", "squeeze", "ravel", "reshape"}
+
+
+def y10(chk, repo):
+    """attrs= arguments of Group/Variable constructions, and stores into <x>.attrs[...], in the functions that assemble the
+    tree around the record pipelines: a value that is certainly a NumPy object (an array / NumPy scalar constructor, or
+    a method chain on one that does not end in tolist()/item()) is reported; anything else is left alone"""
+    from ..interproc import resolve_callees
+    targets = [("ceos_alos2.sar_image", "open_image"), ("ceos_alos2.io", "open"), ("ceos_alos2.sar_image.metadata", "transform_metadata"), ("ceos_alos2.xarray", "to_variable"),
+               ("ceos_alos2.xarray", "to_dataset"), ("ceos_alos2.xarray", "to_datatree")]
+    n_sites = 0
+
+    def numpy_valued(fi, e, flow, depth=0):
+        """-> text of the offending sub-expression | None"""
+        if depth > 6 or e is None:
+            return None
+        if isinstance(e, ast.Call):
+            f = e.func
+            if isinstance(f, ast.Attribute) and f.attr in ("tolist", "item", "isoformat", "decode"):
+                return None
+            r = repo.resolve_expr(fi, f) if isinstance(f, (ast.Name, ast.Attribute)) else None
+            if r is not None and r.kind == "external" and r.fq.split(".")[0] == "numpy" and r.fq.split(".")[-1] in NUMPY_VALUED:
+                return short(e, 60)
+            if isinstance(f, ast.Attribute) and f.attr in ("astype", "view", "copy", "reshape", "squeeze"):
+                return numpy_valued(fi, f.value, flow, depth + 1)
+            if isinstance(f, ast.Name) and f.id in ("list", "tuple", "dict", "int", "float", "str", "bool"):
+                return None
+            return None
+        if isinstance(e, ast.Name):
+            try:
+                d = flow.reaching_def(e.id, e) if getattr(e, "_parent", None) is not None else flow.single_def(e.id)
+            except Exception:
+                d = None
+            if d is not None and d is not e:
+                hit = numpy_valued(fi, d, flow, depth + 1)
+                if hit:
+                    return hit
+            # a mapping filled key by key
+            for st in fi.own_nodes():
+                if isinstance(st, ast.Assign) and isinstance(st.targets[0], ast.Subscript) and isinstance(st.targets[0].value, ast.Name) and st.targets[0].value.id == e.id:
+                    hit = numpy_valued(fi, st.value, flow, depth + 1)
+                    if hit:
+                        return f"{e.id}[{short(st.targets[0].slice, 20)}] = {hit}"
+            return None
+        if isinstance(e, ast.Dict):
+            for k, v in zip(e.keys, e.values):
+                hit = numpy_valued(fi, v, flow, depth + 1)
+                if hit:
+                    return f"{short(k, 20) if k is not None else '**'}: {hit}"
+            return None
+        if isinstance(e, (ast.List, ast.Tuple)):
+            for v in e.elts:
+                hit = numpy_valued(fi, v, flow, depth + 1)
+                if hit:
+                    return hit
+            return None
+        if isinstance(e, ast.BinOp) and isinstance(e.op, ast.BitOr):
+            return numpy_valued(fi, e.left, flow, depth + 1) or numpy_valued(fi, e.right, flow, depth + 1)
+        if isinstance(e, ast.IfExp):
+            return numpy_valued(fi, e.body, flow, depth + 1) or numpy_valued(fi, e.orelse, flow, depth + 1)
+        return None
+
+    for modname, fname in targets:
+        mod = repo.module(modname)
+        fi = mod.funcs.get(fname)
+        if fi is None:
+            continue
+        flow = Flow(fi)
+        for c in calls_in(fi):
+            cs = resolve_callees(repo, fi, c.func)
+            if not any(x.cls is not None and x.cls.name in ("Group", "Variable") for x in cs):
+                continue
+            from ..interproc import bind_args
+            b, _ = bind_args(cs[0], c)
+            a = b.get("attrs")
+            if a is None:
+                continue
+            n_sites += 1
+            hit = numpy_valued(fi, a, flow)
+            chk.require(hit is None, "C12-Y10", f"{mod.relpath}:{fname}", f"attrs of {short(c, 50)} hold plain values",
+                        f"{short(c, 60)} attaches a NumPy object as an attribute ({hit}): attributes must be plain scalars, strings or lists (a NumPy array is not, and the cache encoder cannot serialise it)",
+                        key=f"{modname}:{fname}:attrs:{cs[0].cls.name if cs[0].cls is not None else ''}")
+        for st in fi.own_nodes():
+            if isinstance(st, ast.Assign) and isinstance(st.targets[0], ast.Subscript) and isinstance(st.targets[0].value, ast.Attribute) and st.targets[0].value.attr == "attrs":
+                n_sites += 1
+                hit = numpy_valued(fi, st.value, flow)
+                chk.require(hit is None, "C12-Y10", f"{mod.relpath}:{fname}", f"{short(st, 60)} stores a plain value",
+                            f"{short(st, 70)} stores a NumPy object as an attribute ({hit})", key=f"{modname}:{fname}:attrs-store:{short(st.targets[0].slice, 20)}")
+    if n_sites == 0:
+        raise AnalysisError("no Group/Variable construction with attrs found in the assembling functions")
 
 
 CREATORS = {"numpy.empty", "numpy.zeros", "numpy.ones", "numpy.full"}
